@@ -55,6 +55,16 @@ func runC02(c *Ctx, idx int) {
 	}
 	mon := &popMonitor{seenSpecies: map[int]*genetics.Species{}}
 	runScenario(c, sc, mon)
+	if idx%8 == 6 && !c.Violated() && sc.Ctor != ctorRandom {
+		// a second, short run on a changed by-value copy of the options object just used (another population size), with the
+		// context that copy hands out itself
+		second := *sc.Opts
+		second.PopSize = sc.Opts.PopSize + 3 + c.G.Intn(6)
+		sc2 := *sc
+		sc2.Opts, sc2.Epochs, sc2.RestoreAt, sc2.SwitchOptsAt, sc2.ownContext = &second, 3, 0, 0, true
+		c.Count("scenarios.second_run_on_changed_copy_of_options", 1)
+		runScenario(c, &sc2, &popMonitor{seenSpecies: map[int]*genetics.Species{}})
+	}
 }
 
 // popMonitor the population monitor
